@@ -1,5 +1,103 @@
-import GIV.Model.Build
+/-
+  C19 — imports.ShouldBuild and MatchFile implement Go's build-constraint rules.
+
+  Model: GIV.Model.Build (mirrors build.go; constants and deciding expressions from
+  GIV.Gen.Imports).  Specification: GIV.Lemmas.ImportsBuildSpec (Term / Line / evalLine,
+  linesOf / leadingBlock, suffixUnselected), written from the property statement with the
+  property's own constants.  All theorems hold for every non-ASCII letter-or-digit predicate `U`.
+-/
+import GIV.Lemmas.ImportsBuildProofs
+
 namespace GIV.C19
-open GIV
+open GIV GIV.Build
+
+/-- example environment: only ASCII letters/digits, tags = {android, amd64}. -/
+def exU : Nat → Bool := fun _ => false
+def exTags : Tags := fun t => t == android || t == [97, 109, 100, 54, 52]
+
+/-- `matchTags`: commas AND the terms of an option; a term is `tag` / `!tag`, anything malformed
+(empty, `!`, `!!…`, a rune that is no letter, digit, '_' or '.') is false; android also satisfies
+linux; with `*` every tag but `ignore` is both true and false. -/
+theorem matchTags_spec (U : Nat → Bool) (name : Bytes) (tags : Tags) :
+    matchTags U name tags = (parseOption U name).all (evalTerm tags) :=
+  matchTags_eq U name tags
+
+-- "linux,!windows" under {android, amd64}: true (android satisfies linux, windows absent)
+example : matchTags exU [108,105,110,117,120, 44, 33, 119,105,110,100,111,119,115] exTags = true := by decide
+example : parseOption exU [108,105,110,117,120, 44, 33, 119,105,110,100,111,119,115]
+    = [.tag linux, .not [119,105,110,100,111,119,115]] := by decide
+-- "!!linux", "!", "a-b" are malformed
+example : parseOption exU [33, 33, 108] = [.bad] ∧ parseOption exU [33] = [.bad] ∧ parseOption exU [97, 45, 98] = [.bad] := by decide
+
+/-- `ShouldBuild`: true exactly when every `// +build` line of the leading block (the longest
+prefix of blank and // lines that ends in a blank line) has a satisfied option. -/
+theorem shouldBuild_spec (U : Nat → Bool) (c : Bytes) (tags : Tags) :
+    shouldBuild U c tags =
+      (leadingBlock (linesOf c)).all (fun l =>
+        match plusBuildArgs l with
+        | some args => evalLine tags (parseLine U args)
+        | none => true) :=
+  shouldBuild_eq_spec U c tags
+
+-- "// +build windows\n\npackage p\n": the block is the first two lines, and the line is not satisfied;
+-- without the blank line the block is empty and the file is accepted.
+-- bytes of: "// +build windows\n\npackage p\n" | "// +build windows"
+example : leadingBlock (linesOf [47, 47, 32, 43, 98, 117, 105, 108, 100, 32, 119, 105, 110, 100, 111, 119, 115, 10, 10, 112, 97, 99, 107, 97, 103, 101, 32, 112, 10]) = [[47, 47, 32, 43, 98, 117, 105, 108, 100, 32, 119, 105, 110, 100, 111, 119, 115], []] := by decide
+-- bytes of: "// +build windows\n\npackage p\n"
+example : shouldBuild exU [47, 47, 32, 43, 98, 117, 105, 108, 100, 32, 119, 105, 110, 100, 111, 119, 115, 10, 10, 112, 97, 99, 107, 97, 103, 101, 32, 112, 10] exTags = false := by decide
+-- bytes of: "// +build windows\npackage p\n"
+example : shouldBuild exU [47, 47, 32, 43, 98, 117, 105, 108, 100, 32, 119, 105, 110, 100, 111, 119, 115, 10, 112, 97, 99, 107, 97, 103, 101, 32, 112, 10] exTags = true := by decide
+-- bytes of: "// +build linux,amd64 windows\n\npackage p\n"
+example : shouldBuild exU [47, 47, 32, 43, 98, 117, 105, 108, 100, 32, 108, 105, 110, 117, 120, 44, 97, 109, 100, 54, 52, 32, 119, 105, 110, 100, 111, 119, 115, 10, 10, 112, 97, 99, 107, 97, 103, 101, 32, 112, 10] exTags = true := by decide
+
+/-- `MatchFile`: false exactly when `*` is not set and the name (cut at the first '.', everything
+before the first '_' ignored, a final `_test` dropped) ends in `_GOOS_GOARCH`, `_GOOS` or `_GOARCH`
+with a known token that the tags — android also selecting linux — do not select. -/
+theorem matchFile_spec (U : Nat → Bool) (name : Bytes) (tags : Tags) :
+    matchFile U name tags = false ↔
+      tags star = false ∧ ∃ rl, fileSegsRev name = some rl ∧ suffixUnselected tags rl :=
+  matchFile_false_iff U name tags
+
+-- regression witness of the repaired defect: x_linux.go is selected by {android, …}
+-- bytes of: "x_linux.go"
+example : matchFile exU [120, 95, 108, 105, 110, 117, 120, 46, 103, 111] exTags = true := by decide
+-- bytes of: "x_windows_amd64_test.go"
+example : matchFile exU [120, 95, 119, 105, 110, 100, 111, 119, 115, 95, 97, 109, 100, 54, 52, 95, 116, 101, 115, 116, 46, 103, 111] exTags = false := by decide
+-- bytes of: "x_windows_amd64_test.go" | "amd64" | "windows"
+example : fileSegsRev [120, 95, 119, 105, 110, 100, 111, 119, 115, 95, 97, 109, 100, 54, 52, 95, 116, 101, 115, 116, 46, 103, 111] = some [[97, 109, 100, 54, 52], [119, 105, 110, 100, 111, 119, 115], []] := by decide
+-- bytes of: "amd64" | "windows"
+example : suffixUnselected exTags [[97, 109, 100, 54, 52], [119, 105, 110, 100, 111, 119, 115], []] :=
+  Or.inl ⟨_, _, _, rfl, by decide, by decide, Or.inl (by decide)⟩
+
+/-- With `*` set MatchFile accepts every name, and ShouldBuild accepts every file in which each
++build line of the leading block has an option made of well-formed terms none of which names
+`ignore` (only `ignore`, or a malformed option, can exclude a file). -/
+theorem star_accepts (U : Nat → Bool) (name c : Bytes) (tags : Tags) (hs : tags star = true) :
+    matchFile U name tags = true ∧
+    ((∀ l ∈ leadingBlock (linesOf c), ∀ args, plusBuildArgs l = some args →
+        ∃ opt ∈ args, ∀ t ∈ parseOption U opt, ∃ n, (t = .tag n ∨ t = .not n) ∧ n ≠ ignore) →
+      shouldBuild U c tags = true) := by
+  refine ⟨matchFile_star U name tags hs, ?_⟩
+  intro h
+  rw [shouldBuild_eq_spec]
+  unfold shouldBuildSpec
+  rw [List.all_eq_true]
+  intro l hl
+  unfold lineSatisfied
+  cases hp : plusBuildArgs l with
+  | none => rfl
+  | some args =>
+    obtain ⟨opt, hopt, hterms⟩ := h l hl args hp
+    simp only [evalLine, parseLine, List.any_map, List.any_eq_true]
+    refine ⟨opt, hopt, ?_⟩
+    rw [Function.comp_apply, List.all_eq_true]
+    intro t ht
+    obtain ⟨n, hn, hni⟩ := hterms t ht
+    rcases hn with rfl | rfl <;> simp [evalTerm, hs, hni]
+
+-- bytes of: "// +build !linux\n\n"
+example : shouldBuild exU [47, 47, 32, 43, 98, 117, 105, 108, 100, 32, 33, 108, 105, 110, 117, 120, 10, 10] (fun t => t == star) = true := by decide
+-- bytes of: "// +build ignore\n\n"
+example : shouldBuild exU [47, 47, 32, 43, 98, 117, 105, 108, 100, 32, 105, 103, 110, 111, 114, 101, 10, 10] (fun t => t == star) = false := by decide
 
 end GIV.C19
